@@ -161,7 +161,7 @@ Lemma silent_calls : forall c s push outs s',
 Proof.
   intros c s push outs s' He H.
   destruct c; simpl in He; try discriminate He; simpl in H;
-    try (unfold step_next_loop, step_after, step_next_pop, step_aj_next, step_proc_failure, step_on_event,
+    try (unfold step_next_loop, step_after, step_after_procs, step_next_pop, step_aj_next, step_proc_failure, step_on_event,
            step_aj_on_event, step_aj_check_cmd, step_start_proc, step_stop_proc in H);
     chase H; try reflexivity.
 Qed.
@@ -210,14 +210,14 @@ Lemma step_pushes_ok : forall c s push outs s',
 Proof.
   intros c s push outs s' H.
   destruct c; simpl in H;
-    try (unfold step_next_loop, step_after, step_next_pop, step_aj_next, step_aj_group, step_proc_failure,
+    try (unfold step_next_loop, step_after, step_after_procs, step_next_pop, step_aj_next, step_aj_group, step_proc_failure,
            step_force, step_on_event, step_aj_on_event, step_aj_check_cmd, step_start_proc, step_stop_proc in H);
     chase H; repeat (apply Forall_cons; [exact I|]); try apply Forall_nil;
     try (apply Forall_app; split); try (apply Forall_forall; intros x Hx; apply in_map_iff in Hx;
       destruct Hx as (y & <- & _); exact I); repeat (apply Forall_cons; [exact I|]); try apply Forall_nil.
-  - destruct (aget (j_app a) (s_app_req a0)); repeat constructor.
-  - destruct (aget (j_app a) (s_proc_req a0)); [|constructor].
-    apply Forall_forall; intros x Hx; apply in_map_iff in Hx; destruct Hx as (y & <- & _); exact I.
+  all: try (match goal with |- Forall call_ok (match ?x with _ => _ end) => destruct x end);
+       repeat constructor;
+       try (apply Forall_forall; intros x Hx; apply in_map_iff in Hx; destruct Hx as (y & <- & _); exact I).
 Qed.
 
 (* ------------------------------------------------------------------ the agenda machine with a log *)
